@@ -23,10 +23,28 @@ Variable rt : rtable.
 Variable mt : mtable.
 
 (* the arguments of a call: one ordinary value per declared parameter *)
+Fixpoint plain_args0 (args : list rval) (ps : list string) : bool :=
+  match args, ps with
+  | [], [] => true
+  | a :: r, _ :: ps' => plain_rval mt a && plain_args0 r ps'
+  | _, _ => false
+  end.
+(* an argument that is itself a call -- of a built-in function, or of a routine that always leaves through a return -- with ordinary values *)
+Definition inner_call (a : rval) : bool :=
+  match a with
+  | RCall g args' =>
+      match builtin_params g builtin_table, find_rdef rt g with
+      | Some ps, _ => plain_args0 args' ps
+      | None, Some d => plain_args0 args' (rd_params d) && must_return (rd_body d)
+      | None, None => false
+      end
+  | _ => false
+  end.
+(* the arguments of a call: ordinary values or such calls (`f [g 1] 2`), one per declared parameter *)
 Fixpoint plain_args (args : list rval) (ps : list string) : bool :=
   match args, ps with
   | [], [] => true
-  | a :: r, _ :: ps' => plain_rval mt a && plain_args r ps'
+  | a :: r, _ :: ps' => (plain_rval mt a || inner_call a) && plain_args r ps'
   | _, _ => false
   end.
 
@@ -218,11 +236,30 @@ Lemma exec_call f ss g args b : Sem.exec rt mt (S f) false ss (SCall g args b) =
 Proof. reflexivity. Qed.
 
 (* no routine markers, whatever the distance *)
+Lemma c_args_no_routine0 args : forall ps, plain_args0 args ps = true -> forallb not_routine (c_args ps args) = true.
+Proof.
+  induction args as [|a r IH]; intros ps H; destruct ps as [|p ps]; cbn [plain_args0 c_args] in *; try reflexivity; try discriminate.
+  apply andb_true_iff in H. destruct H as [Ha Hr].
+  rewrite !forallb_app, (c_rval_no_routine rt mt a (DReg R_RESULT) Ha (plain_ok_result mt a Ha)), (IH ps Hr). reflexivity.
+Qed.
+Lemma call_code_no_routine0 d f args : plain_args0 args (rd_params d) = true -> forallb not_routine (call_code d f args) = true.
+Proof. intros Ha. unfold call_code. rewrite !forallb_app, (c_args_no_routine0 args _ Ha). reflexivity. Qed.
+Lemma bcall_code_no_routine0 ps f args : plain_args0 args ps = true -> forallb not_routine (bcall_code ps f args) = true.
+Proof. intros Ha. unfold bcall_code. rewrite !forallb_app, (c_args_no_routine0 args _ Ha). reflexivity. Qed.
+Lemma inner_call_no_routine a : inner_call a = true -> forallb not_routine (c_rval rt mt a (DReg R_RESULT)) = true.
+Proof.
+  destruct a as [l|l|m|m|y|rg|e|g args']; try discriminate. cbn [inner_call].
+  destruct (builtin_params g builtin_table) as [qs|] eqn:Eb.
+  - intros Ha. rewrite (c_rcall_builtin g args' qs _ Eb), app_nil_r. exact (bcall_code_no_routine0 qs g args' Ha).
+  - destruct (find_rdef rt g) as [d|] eqn:Ef; [|discriminate]. intros Ha. apply andb_true_iff in Ha. destruct Ha as [Ha _].
+    rewrite (c_rcall g args' d _ Eb Ef), app_nil_r. exact (call_code_no_routine0 d g args' Ha).
+Qed.
 Lemma c_args_no_routine args : forall ps, plain_args args ps = true -> forallb not_routine (c_args ps args) = true.
 Proof.
   induction args as [|a r IH]; intros ps H; destruct ps as [|p ps]; cbn [plain_args c_args] in *; try reflexivity; try discriminate.
-  apply andb_true_iff in H. destruct H as [Ha Hr].
-  rewrite !forallb_app, (c_rval_no_routine rt mt a (DReg R_RESULT) Ha (plain_ok_result mt a Ha)), (IH ps Hr). reflexivity.
+  apply andb_true_iff in H. destruct H as [Ha Hr]. rewrite !forallb_app, (IH ps Hr).
+  destruct (plain_rval mt a) eqn:Epl; [rewrite (c_rval_no_routine rt mt a (DReg R_RESULT) Epl (plain_ok_result mt a Epl)); reflexivity|].
+  cbn [orb] in Ha. rewrite (inner_call_no_routine a Ha). reflexivity.
 Qed.
 
 Lemma call_code_no_routine d f args : plain_args args (rd_params d) = true -> forallb not_routine (call_code d f args) = true.
@@ -454,13 +491,13 @@ Proof. reflexivity. Qed.
 Lemma eval_args_nil f ss : eval_args rt mt (S f) false ss [] = ROk [] ss.
 Proof. reflexivity. Qed.
 
-Lemma args_run : forall args ps, plain_args args ps = true ->
+Lemma args_run0 : forall args ps, plain_args0 args ps = true ->
   forall fuel im ss s p0 F vs ss', simr ss s -> m_frames s = FCall p0 false None :: F -> code_at im (m_pc s) (c_args ps args) ->
   eval_args rt mt fuel false ss args = ROk vs ss' ->
   ss' = ss /\ exists n s' p1, esteps n im s = Some (s', []) /\ simr ss s' /\ m_pc s' = m_pc s + zlength (c_args ps args) /\
                               m_frames s' = FCall p1 false None :: F /\ m_stack s' = m_stack s /\ bind_params ps vs p0 = Some p1 /\ m_unnamed s' = m_unnamed s.
 Proof.
-  induction args as [|a r IH]; intros ps Hpl fuel im ss s p0 F vs ss' Hsim Hfr Hc He; destruct ps as [|p ps]; cbn [plain_args] in Hpl; try discriminate.
+  induction args as [|a r IH]; intros ps Hpl fuel im ss s p0 F vs ss' Hsim Hfr Hc He; destruct ps as [|p ps]; cbn [plain_args0] in Hpl; try discriminate.
   - destruct fuel as [|fuel]; [discriminate|]. rewrite eval_args_nil in He. injection He as Hvs Hss. subst vs ss'. split; [reflexivity|].
     exists 0%nat, s, p0. split; [reflexivity|]. split; [exact Hsim|]. split; [cbn [c_args]; unfold zlength; cbn; lia|]. split; [exact Hfr|]. split; [reflexivity|]. split; reflexivity.
   - apply andb_true_iff in Hpl. destruct Hpl as [Ha Hr].
@@ -613,54 +650,7 @@ Proof.
   rewrite E, Hb. reflexivity.
 Qed.
 
-Lemma builtin_runs f args ps : builtin_params f builtin_table = Some ps -> plain_args args ps = true ->
-  forall fuel im ss s x ss', sim ss s -> code_at im (m_pc s) (bcall_code ps f args) ->
-  call rt mt (S fuel) false ss f args = ROk x ss' ->
-  ss' = ss /\ exists n s', esteps n im s = Some (s', []) /\ sim ss s' /\ m_pc s' = m_pc s + zlength (bcall_code ps f args) /\
-                          (m_stack s', fr s') = (m_stack s, fr s) /\ rf_get (m_regs s') R_RESULT = Some x.
-Proof.
-  intros Hb Hpl fuel im ss s x ss' Hsim Hc He.
-  rewrite (call_builtin_sem fuel ss f args ps Hb) in He. unfold bcall_code in Hc |- *.
-  set (CA := c_args ps args) in *. set (kA := zlength CA) in *.
-  apply code_at_app in Hc. destruct Hc as [Hctx Hc]. cbn [code_at] in Hctx. destruct Hctx as [Hfc _]. rewrite zlength1 in Hc.
-  apply code_at_app in Hc. destruct Hc as [HcA Hc]. fold kA in Hc. cbn [code_at] in Hc. destruct Hc as [Hfj [Hfe _]].
-  destruct (eval_args rt mt fuel false ss args) as [vs sa|e sa|sa] eqn:Ea; cbn [sbind] in He; try discriminate.
-  set (F := m_frames s) in *.
-  set (s1 := advance (with_frames s (FCall [] false None :: F))).
-  assert (E1 : esteps 1 im s = Some (s1, [])) by (apply (estep1 im s _ _ _ Hfc); reflexivity).
-  assert (Hs1 : simr ss s1).
-  { destruct Hsim as [Hr Hfu Hg Hv Hst Hw Hu Hdf]. constructor; cbn [s1 advance with_pc with_frames with_vars m_regs m_globals m_frames m_world m_unnamed vars_of]; assumption. }
-  assert (HcA1 : code_at im (m_pc s1) CA) by exact HcA.
-  destruct (args_run args ps Hpl fuel im ss s1 [] F vs sa Hs1 eq_refl HcA1 Ea) as [Hsa (n2 & s2 & p1 & E2 & Hs2 & Hpc2 & Hfr2 & Hst2 & Hbind & Hun2)]. subst sa.
-  fold CA in Hpc2. fold kA in Hpc2. rewrite Hbind in He.
-  assert (Hpc2' : m_pc s2 = m_pc s + 1 + kA) by (rewrite Hpc2; reflexivity).
-  destruct (call_builtin f p1) as [v|e] eqn:Ecb; cbn [lift_res] in He; [|discriminate]. injection He as Hx Hss. subst v ss'.
-  split; [reflexivity|].
-  set (ret := m_pc s2 + 1).
-  set (sR := with_regs (with_frames s2 (FCall p1 true (Some ret) :: F)) (rf_set (m_regs s2) R_RESULT x)).
-  set (s3 := with_pc (with_stack (with_frames sR F) (m_stack s2)) ret).
-  assert (E3 : esteps 1 im s2 = Some (s3, [])).
-  { assert (Hfj' : fetch im (m_pc s2) = Some (I1 OC_JSR (PStr f))) by (rewrite Hpc2'; exact Hfj).
-    apply (estep1 im s2 _ _ _ Hfj'). cbn [Machine.exec i_op i_p0 I1]. rewrite Hfr2, (yes_builtin f ps Hb), Ecb. cbn [set_reg].
-    fold ret. change (with_regs (with_frames s2 (FCall p1 true (Some ret) :: F)) (rf_set (m_regs (with_frames s2 (FCall p1 true (Some ret) :: F))) R_RESULT x)) with sR.
-    assert (HctR : call_tail (m_frames sR) = Some (ret, F)) by reflexivity.
-    rewrite (do_return_steps sR ret F HctR). reflexivity. }
-  set (s4 := advance s3).
-  assert (Hfe' : fetch im ret = Some (I0 OC_END_CTX)).
-  { unfold ret. rewrite Hpc2'. replace (m_pc s + 1 + kA + 1) with (m_pc s + 1 + kA + Z.of_nat 1) by lia. exact Hfe. }
-  assert (E4 : esteps 1 im s3 = Some (s4, [])) by (apply (estep1 im s3 _ _ _ Hfe'); reflexivity).
-  exists (1 + (n2 + (1 + 1)))%nat, s4. split; [change (@nil event) with ([] ++ ([] ++ ([] ++ @nil event))); eapply esteps_app; [exact E1|eapply esteps_app; [exact E2|eapply esteps_app; [exact E3|exact E4]]]|].
-  split.
-  { destruct Hs2 as [Hr Hfu Hg Hv Hw Hdf]. destruct Hsim as [_ _ _ Hv0 Hst0 _ Hu0 _].
-    constructor; cbn [s4 s3 sR advance with_pc with_stack with_frames with_regs with_vars m_regs m_globals m_frames m_world m_unnamed]; try assumption.
-    - apply agree_set_hidden; [exact Hr|reflexivity].
-    - rewrite Hun2. exact Hu0.
-    - rewrite rf_get_set_other; [exact Hdf|reflexivity]. }
-  split.
-  { change (m_pc s4) with (ret + 1). unfold ret. rewrite Hpc2'. unfold zlength. rewrite !app_length, !Nat2Z.inj_add. cbn [length]. unfold kA, zlength. lia. }
-  split; [change (m_stack s4, fr s4) with (m_stack s2, erase F); rewrite Hst2; reflexivity|].
-  cbn [s4 s3 sR advance with_pc with_stack with_frames with_regs m_regs]. apply rf_get_set_same.
-Qed.
+
 
 (* what the theorem, at a smaller budget, says of the bodies of the routines *)
 Definition body_sim (m : nat) : Prop :=
@@ -669,17 +659,36 @@ Definition body_sim (m : nat) : Prop :=
   code_at im (m_pc s) (c_stmt rt mt false None (rd_body d)) ->
   Sem.exec rt mt m false ss (rd_body d) = ROk sig ss' -> outcome true None im ss s sig ss' (c_stmt rt mt false None (rd_body d)).
 
-(* the code of a call runs the routine and comes back behind its END_CTX; when the routine left through a return, RESULT holds
-   the value of the call *)
-Lemma call_runs fuel : body_sim fuel -> forall f args d, builtin_params f builtin_table = None -> find_rdef rt f = Some d ->
-  plain_args args (rd_params d) = true ->
-  forall im ss s x ss', routines_loaded im -> sim ss s -> code_at im (m_pc s) (call_code d f args) ->
+(* ---- calls: the arguments may themselves be calls (one level: `f [g 1] 2`) ----
+   [args_fact fuel args ps]: what running the code of the arguments establishes, the frame under construction on top.  The
+   two lemmas about the call itself are stated for any arguments with that property; it is proved first for ordinary values
+   ([args_fact0]), which gives the inner calls, then for ordinary values and inner calls ([args_run_gen]). *)
+Definition args_fact (fuel : nat) (args : list rval) (ps : list string) : Prop :=
+  forall im ss s p0 F vs ssa, routines_loaded im -> simr ss s -> m_unnamed s = [] -> m_frames s = FCall p0 false None :: F ->
+  code_at im (m_pc s) (c_args ps args) -> eval_args rt mt fuel false ss args = ROk vs ssa ->
+  exists n s' p1 evs, esteps n im s = Some (s', evs) /\ simr ssa s' /\ m_unnamed s' = [] /\ m_pc s' = m_pc s + zlength (c_args ps args) /\
+                      m_frames s' = FCall p1 false None :: F /\ m_stack s' = m_stack s /\ bind_params ps vs p0 = Some p1 /\
+                      rev (s_trace ssa) = rev (s_trace ss) ++ evs.
+
+Lemma args_fact0 fuel args ps : plain_args0 args ps = true -> args_fact fuel args ps.
+Proof.
+  intros Hpl im ss s p0 F vs ssa _ Hsim Hun Hfr Hc He.
+  destruct (args_run0 args ps Hpl fuel im ss s p0 F vs ssa Hsim Hfr Hc He) as [Hsa (n & s' & p1 & E & Hs' & Hpc & Hfr' & Hsk & Hb & Hun')]. subst ssa.
+  exists n, s', p1, []. split; [exact E|]. split; [exact Hs'|]. split; [rewrite Hun'; exact Hun|]. split; [exact Hpc|]. split; [exact Hfr'|]. split; [exact Hsk|].
+  split; [exact Hb|]. rewrite app_nil_r. reflexivity.
+Qed.
+
+(* the code of a call runs the routine and comes back behind its END_CTX with the stack and the frames it started with; when the
+   routine left through a return, RESULT holds the value of the call *)
+Lemma call_runs_gen fuel : body_sim fuel -> forall f args d, builtin_params f builtin_table = None -> find_rdef rt f = Some d ->
+  args_fact fuel args (rd_params d) ->
+  forall im ss s x ss', routines_loaded im -> simr ss s -> m_unnamed s = [] -> code_at im (m_pc s) (call_code d f args) ->
   call rt mt (S fuel) false ss f args = ROk x ss' ->
-  exists n s' evs, esteps n im s = Some (s', evs) /\ sim ss' s' /\ m_pc s' = m_pc s + zlength (call_code d f args) /\
-                   (m_stack s', fr s') = (m_stack s, fr s) /\ rev (s_trace ss') = rev (s_trace ss) ++ evs /\
+  exists n s' evs, esteps n im s = Some (s', evs) /\ simr ss' s' /\ m_unnamed s' = [] /\ m_pc s' = m_pc s + zlength (call_code d f args) /\
+                   m_stack s' = m_stack s /\ m_frames s' = m_frames s /\ rev (s_trace ss') = rev (s_trace ss) ++ evs /\
                    (must_return (rd_body d) = true -> rf_get (m_regs s') R_RESULT = Some x).
 Proof.
-  intros Hbody f args d Hb Hf Hpl im ss s x ss' Hload Hsim Hc He.
+  intros Hbody f args d Hb Hf Hargs im ss s x ss' Hload Hsim Hun Hc He.
   rewrite (call_user fuel ss f args d Hb Hf) in He. unfold call_code in Hc |- *.
   set (ps := rd_params d) in *. set (CA := c_args ps args) in *. set (kA := zlength CA) in *.
   apply code_at_app in Hc. destruct Hc as [Hctx Hc]. cbn [code_at] in Hctx. destruct Hctx as [Hfc _]. rewrite zlength1 in Hc.
@@ -690,10 +699,10 @@ Proof.
   set (s1 := advance (with_frames s (FCall [] false None :: F))).
   assert (E1 : esteps 1 im s = Some (s1, [])) by (apply (estep1 im s _ _ _ Hfc); reflexivity).
   assert (Hs1 : simr ss s1).
-  { destruct Hsim as [Hr Hfu Hg Hv Hst Hw Hu Hdf]. constructor; cbn [s1 advance with_pc with_frames with_vars m_regs m_globals m_frames m_world m_unnamed vars_of]; assumption. }
+  { destruct Hsim as [Hr Hfu Hg Hv Hw Hdf]. constructor; cbn [s1 advance with_pc with_frames with_vars m_regs m_globals m_frames m_world m_unnamed vars_of]; assumption. }
   (* the arguments *)
   assert (HcA1 : code_at im (m_pc s1) CA) by exact HcA.
-  destruct (args_run args ps Hpl fuel im ss s1 [] F vs sa Hs1 eq_refl HcA1 Ea) as [Hsa (n2 & s2 & p1 & E2 & Hs2 & Hpc2 & Hfr2 & Hst2 & Hbind & Hun2)]. subst sa.
+  destruct (Hargs im ss s1 [] F vs sa Hload Hs1 Hun eq_refl HcA1 Ea) as (n2 & s2 & p1 & ea & E2 & Hs2 & Hun2 & Hpc2 & Hfr2 & Hst2 & Hbind & Hta).
   fold CA in Hpc2. fold kA in Hpc2. rewrite Hbind in He.
   assert (Hpc2' : m_pc s2 = m_pc s + 1 + kA) by (rewrite Hpc2; reflexivity).
   (* JSR *)
@@ -704,13 +713,14 @@ Proof.
   assert (E3 : esteps 1 im s2 = Some (s3, [])).
   { assert (Hfj' : fetch im (m_pc s2) = Some (I1 OC_JSR (PStr f))) by (rewrite Hpc2'; exact Hfj).
     apply (estep1 im s2 _ _ _ Hfj'). cbn [Machine.exec i_op i_p0 I1]. rewrite Hfr2, (not_builtin f Hb), Hfind. reflexivity. }
-  set (ssb := s_with_locals ss (Some p1)) in *.
+  set (ssb := s_with_locals sa (Some p1)) in *.
+  assert (Hvars2 : vars_of F = s_locals sa).
+  { pose proof (simr_vars _ _ Hs2) as Hv. rewrite Hfr2 in Hv. exact Hv. }
   assert (Hs3 : sim ssb s3).
-  { destruct Hs2 as [Hr Hfu Hg Hv Hw Hdf]. assert (Hu : m_unnamed s2 = []) by (rewrite Hun2; exact (sim_unnamed _ _ Hsim)).
+  { destruct Hs2 as [Hr Hfu Hg Hv Hw Hdf].
     constructor; cbn [s3 ssb with_pc with_frames with_vars s_with_locals m_regs m_globals m_frames m_world m_unnamed s_regs s_globals s_locals s_world vars_of settled]; try assumption; reflexivity. }
   assert (Hct3 : call_tail (m_frames s3) = Some (ret, F)) by reflexivity.
   assert (Hd3 : in_depth_ok true s3) by (intros _; exact I).
-  assert (Hin3 : in_loop_ok false None) by (intros H; discriminate).
   assert (Hir3 : in_ret_ok true (m_frames s3)) by (intros _; exists ret, F; exact Hct3).
   assert (Hbcode3 : code_at im (m_pc s3) (c_stmt rt mt false None (rd_body d))) by exact Hbcode.
   assert (Hfe' : fetch im ret = Some (I0 OC_END_CTX)).
@@ -718,9 +728,9 @@ Proof.
   assert (Hlen : zlength ([I0 OC_CTX] ++ CA ++ [I1 OC_JSR (PStr f); I0 OC_END_CTX]) = 1 + kA + 2).
   { unfold zlength. rewrite !app_length, !Nat2Z.inj_add. cbn [length]. unfold kA, zlength. lia. }
   assert (Hstk : m_stack s3 = m_stack s) by exact Hst2.
-  assert (E13 : esteps (1 + (n2 + 1)) im s = Some (s3, [] ++ ([] ++ []))) by (eapply esteps_app; [exact E1|eapply esteps_app; [exact E2|exact E3]]).
+  assert (E13 : esteps (1 + (n2 + 1)) im s = Some (s3, [] ++ (ea ++ []))) by (eapply esteps_app; [exact E1|eapply esteps_app; [exact E2|exact E3]]).
   destruct (Sem.exec rt mt fuel false ssb (rd_body d)) as [sgb sb|eb sb|sb] eqn:Eb; try discriminate.
-  set (sfin := s_with_locals sb (s_locals ss)) in *.
+  set (sfin := s_with_locals sb (s_locals sa)) in *.
   assert (Hss' : ss' = sfin) by (destruct sgb; injection He as H1 H2; congruence).
   subst ss'.
   rewrite Hlen.
@@ -736,29 +746,176 @@ Proof.
       apply (estep1 im s4 _ _ _ Hfend'). cbn [Machine.exec i_op i_p0 I1]. rewrite (do_return_steps s4 ret F Hct4), Hrs4'. reflexivity. }
     set (s6 := advance s5).
     assert (E6 : esteps 1 im s5 = Some (s6, [])) by (apply (estep1 im s5 _ _ _ Hfe'); reflexivity).
-    exists ((1 + (n2 + 1)) + (n4 + (1 + 1)))%nat, s6, (([] ++ ([] ++ [])) ++ (e4 ++ ([] ++ []))).
+    exists ((1 + (n2 + 1)) + (n4 + (1 + 1)))%nat, s6, (([] ++ (ea ++ [])) ++ (e4 ++ ([] ++ []))).
     split; [eapply esteps_app; [exact E13|eapply esteps_app; [exact E4|eapply esteps_app; [exact E5|exact E6]]]|].
-    split.
-    { destruct Hs4 as [Hr Hfu Hg Hv Hse Hw Hu Hdf]. destruct Hsim as [_ _ _ Hv0 Hst0 _ _ _].
-      constructor; cbn [s6 s5 sfin advance with_pc with_stack with_frames with_vars s_with_locals m_regs m_globals m_frames m_world m_unnamed s_regs s_globals s_locals s_world]; assumption. }
+    destruct Hs4 as [Hr Hfu Hg Hv Hse Hw Hu Hdf].
+    split; [constructor; cbn [s6 s5 sfin advance with_pc with_stack with_frames with_vars s_with_locals m_regs m_globals m_frames m_world m_unnamed s_regs s_globals s_locals s_world]; assumption|].
+    split; [exact Hu|].
     split; [change (m_pc s6) with (ret + 1); unfold ret; rewrite Hpc2'; lia|].
-    split; [change (m_stack s6, fr s6) with (m_stack s4, erase F); rewrite Hsk4, Hstk; reflexivity|].
-    split; [cbn [app]; rewrite !app_nil_r; exact Ht4|].
+    split; [change (m_stack s6) with (m_stack s4); rewrite Hsk4, Hstk; reflexivity|].
+    split; [reflexivity|].
+    split; [cbn [app]; rewrite !app_nil_r; change (s_trace sfin) with (s_trace sb); rewrite Ht4; change (s_trace ssb) with (s_trace sa); rewrite Hta, app_assoc; reflexivity|].
     intros Hmr. exfalso. subst sgb. exact (proj1 (must_return_sound rt mt fuel) _ _ _ _ Hmr Eb eq_refl).
   + discriminate.
   + (* the body returns: the machine is behind the END_CTX already *)
     rewrite Hct3 in Hct'. injection Hct' as Hret' HF'. subst ret' F'.
-    exists ((1 + (n2 + 1)) + n4)%nat, s4, (([] ++ ([] ++ [])) ++ e4).
+    exists ((1 + (n2 + 1)) + n4)%nat, s4, (([] ++ (ea ++ [])) ++ e4).
     split; [eapply esteps_app; [exact E13|exact E4]|].
     destruct Hr4 as [(Hr & Hfu & Hg & Hw & Hu & Hdf) Hres4].
-    split.
-    { destruct Hsim as [_ _ _ Hv0 Hst0 _ _ _].
-      constructor; cbn [sfin s_with_locals s_regs s_globals s_locals s_world]; try assumption; rewrite Hfr4; assumption. }
+    split; [constructor; cbn [sfin s_with_locals s_regs s_globals s_locals s_world]; try assumption; rewrite Hfr4; assumption|].
+    split; [exact Hu|].
     split; [rewrite Hpc4; unfold ret; rewrite Hpc2'; lia|].
-    split; [unfold fr; rewrite Hfr4, Hst4, Hstk; reflexivity|].
-    split; [cbn [app]; exact Ht4|].
+    split; [rewrite Hst4; change (ret_stack (m_frames s3) (m_stack s3)) with (m_stack s3); exact Hstk|].
+    split; [exact Hfr4|].
+    split; [cbn [app]; rewrite app_nil_r; change (s_trace sfin) with (s_trace sb); rewrite Ht4; change (s_trace ssb) with (s_trace sa); rewrite Hta, app_assoc; reflexivity|].
     intros _. subst sgb. injection He as Hx. subst x. exact Hres4.
 Qed.
+
+(* a call of a built-in function: JSR computes the value, puts it into RESULT and comes back at once *)
+Lemma builtin_runs_gen fuel f args ps : builtin_params f builtin_table = Some ps -> args_fact fuel args ps ->
+  forall im ss s x ss', routines_loaded im -> simr ss s -> m_unnamed s = [] -> code_at im (m_pc s) (bcall_code ps f args) ->
+  call rt mt (S fuel) false ss f args = ROk x ss' ->
+  exists n s' evs, esteps n im s = Some (s', evs) /\ simr ss' s' /\ m_unnamed s' = [] /\ m_pc s' = m_pc s + zlength (bcall_code ps f args) /\
+                   m_stack s' = m_stack s /\ m_frames s' = m_frames s /\ rev (s_trace ss') = rev (s_trace ss) ++ evs /\
+                   rf_get (m_regs s') R_RESULT = Some x.
+Proof.
+  intros Hb Hargs im ss s x ss' Hload Hsim Hun Hc He.
+  rewrite (call_builtin_sem fuel ss f args ps Hb) in He. unfold bcall_code in Hc |- *.
+  set (CA := c_args ps args) in *. set (kA := zlength CA) in *.
+  apply code_at_app in Hc. destruct Hc as [Hctx Hc]. cbn [code_at] in Hctx. destruct Hctx as [Hfc _]. rewrite zlength1 in Hc.
+  apply code_at_app in Hc. destruct Hc as [HcA Hc]. fold kA in Hc. cbn [code_at] in Hc. destruct Hc as [Hfj [Hfe _]].
+  destruct (eval_args rt mt fuel false ss args) as [vs sa|e sa|sa] eqn:Ea; cbn [sbind] in He; try discriminate.
+  set (F := m_frames s) in *.
+  set (s1 := advance (with_frames s (FCall [] false None :: F))).
+  assert (E1 : esteps 1 im s = Some (s1, [])) by (apply (estep1 im s _ _ _ Hfc); reflexivity).
+  assert (Hs1 : simr ss s1).
+  { destruct Hsim as [Hr Hfu Hg Hv Hw Hdf]. constructor; cbn [s1 advance with_pc with_frames with_vars m_regs m_globals m_frames m_world m_unnamed vars_of]; assumption. }
+  assert (HcA1 : code_at im (m_pc s1) CA) by exact HcA.
+  destruct (Hargs im ss s1 [] F vs sa Hload Hs1 Hun eq_refl HcA1 Ea) as (n2 & s2 & p1 & ea & E2 & Hs2 & Hun2 & Hpc2 & Hfr2 & Hst2 & Hbind & Hta).
+  fold CA in Hpc2. fold kA in Hpc2. rewrite Hbind in He.
+  assert (Hpc2' : m_pc s2 = m_pc s + 1 + kA) by (rewrite Hpc2; reflexivity).
+  destruct (call_builtin f p1) as [v|e] eqn:Ecb; cbn [lift_res] in He; [|discriminate]. injection He as Hx Hss. subst v ss'.
+  set (ret := m_pc s2 + 1).
+  set (sR := with_regs (with_frames s2 (FCall p1 true (Some ret) :: F)) (rf_set (m_regs s2) R_RESULT x)).
+  set (s3 := with_pc (with_stack (with_frames sR F) (m_stack s2)) ret).
+  assert (E3 : esteps 1 im s2 = Some (s3, [])).
+  { assert (Hfj' : fetch im (m_pc s2) = Some (I1 OC_JSR (PStr f))) by (rewrite Hpc2'; exact Hfj).
+    apply (estep1 im s2 _ _ _ Hfj'). cbn [Machine.exec i_op i_p0 I1]. rewrite Hfr2, (yes_builtin f ps Hb), Ecb. cbn [set_reg].
+    fold ret. change (with_regs (with_frames s2 (FCall p1 true (Some ret) :: F)) (rf_set (m_regs (with_frames s2 (FCall p1 true (Some ret) :: F))) R_RESULT x)) with sR.
+    assert (HctR : call_tail (m_frames sR) = Some (ret, F)) by reflexivity.
+    rewrite (do_return_steps sR ret F HctR). reflexivity. }
+  set (s4 := advance s3).
+  assert (Hfe' : fetch im ret = Some (I0 OC_END_CTX)).
+  { unfold ret. rewrite Hpc2'. replace (m_pc s + 1 + kA + 1) with (m_pc s + 1 + kA + Z.of_nat 1) by lia. exact Hfe. }
+  assert (E4 : esteps 1 im s3 = Some (s4, [])) by (apply (estep1 im s3 _ _ _ Hfe'); reflexivity).
+  exists (1 + (n2 + (1 + 1)))%nat, s4, ([] ++ (ea ++ ([] ++ []))).
+  split; [eapply esteps_app; [exact E1|eapply esteps_app; [exact E2|eapply esteps_app; [exact E3|exact E4]]]|].
+  split.
+  { destruct Hs2 as [Hr Hfu Hg Hv Hw Hdf].
+    constructor; cbn [s4 s3 sR advance with_pc with_stack with_frames with_regs with_vars m_regs m_globals m_frames m_world m_unnamed]; try assumption.
+    - apply agree_set_hidden; [exact Hr|reflexivity].
+    - rewrite Hfr2 in Hv. exact Hv.
+    - rewrite rf_get_set_other; [exact Hdf|reflexivity]. }
+  split; [exact Hun2|].
+  split.
+  { change (m_pc s4) with (ret + 1). unfold ret. rewrite Hpc2'. unfold zlength. rewrite !app_length, !Nat2Z.inj_add. cbn [length]. unfold kA, zlength. lia. }
+  split; [exact Hst2|]. split; [reflexivity|].
+  split; [cbn [app]; rewrite !app_nil_r; exact Hta|].
+  cbn [s4 s3 sR advance with_pc with_stack with_frames with_regs m_regs]. apply rf_get_set_same.
+Qed.
+
+(* the arguments: ordinary values, or calls (of a built-in function, or of a routine that always returns) with ordinary values *)
+Lemma args_run_gen : forall args ps fuel, (forall k, (k < fuel)%nat -> body_sim k) -> plain_args args ps = true -> args_fact fuel args ps.
+Proof.
+  induction args as [|a r IH]; intros ps fuel Hbs Hpl im ss s p0 F vs ssa Hload Hsim Hun Hfr Hc He; destruct ps as [|p ps]; cbn [plain_args] in Hpl; try discriminate.
+  - destruct fuel as [|fuel]; [discriminate|]. rewrite eval_args_nil in He. injection He as Hvs Hss. subst vs ssa.
+    exists 0%nat, s, p0, []. split; [reflexivity|]. split; [exact Hsim|]. split; [exact Hun|]. split; [cbn [c_args]; unfold zlength; cbn; lia|]. split; [exact Hfr|].
+    split; [reflexivity|]. split; [reflexivity|]. rewrite app_nil_r. reflexivity.
+  - apply andb_true_iff in Hpl. destruct Hpl as [Ha Hr].
+    destruct fuel as [|fuel]; [discriminate|]. rewrite eval_args_S in He.
+    destruct (eval_rval rt mt fuel false ss a) as [v s1|e s1|s1] eqn:Ev; cbn [sbind] in He; try discriminate.
+    destruct (eval_args rt mt fuel false s1 r) as [vs' s2|e s2|s2] eqn:Er; cbn [sbind] in He; try discriminate.
+    injection He as Hvs Hss. subst vs ssa.
+    cbn [c_args] in Hc |- *. apply code_at_app in Hc. destruct Hc as [Hca Hc]. apply code_at_app in Hc. destruct Hc as [Hcp Hcr].
+    cbn [code_at] in Hcp. destruct Hcp as [Hfp _]. rewrite zlength1 in Hcr.
+    set (k := zlength (c_rval rt mt a (DReg R_RESULT))) in *.
+    (* the value of the argument arrives in RESULT *)
+    assert (Hval : exists n1 sa e1, esteps n1 im s = Some (sa, e1) /\ simr s1 sa /\ m_unnamed sa = [] /\ m_pc sa = m_pc s + k /\
+                                    m_frames sa = m_frames s /\ m_stack sa = m_stack s /\ rf_get (m_regs sa) R_RESULT = Some v /\
+                                    rev (s_trace s1) = rev (s_trace ss) ++ e1).
+    { destruct (plain_rval mt a) eqn:Epl.
+      - destruct (c_rval_runs_r rt mt a (DReg R_RESULT) Epl (plain_ok_result mt a Epl) im ss s v s1 fuel Hsim Hca Ev) as [Hs1 [n Hn]]. subst s1.
+        exists n, (put_vm s (DReg R_RESULT) v k), []. split; [exact Hn|]. split; [apply simr_put_reg_hidden; [exact Hsim|reflexivity|reflexivity]|].
+        split; [exact Hun|]. split; [reflexivity|]. split; [reflexivity|]. split; [reflexivity|]. split; [apply rf_get_set_same|]. rewrite app_nil_r. reflexivity.
+      - cbn [orb] in Ha. destruct a as [l|l|m|m|y|rg|e|g args']; try discriminate. cbn [inner_call] in Ha.
+        destruct fuel as [|f1]; [discriminate|]. rewrite eval_rval_S in Ev. destruct f1 as [|f2]; [discriminate|].
+        destruct (builtin_params g builtin_table) as [qs|] eqn:Eb.
+        + assert (Hcode : c_rval rt mt (RCall g args') (DReg R_RESULT) = bcall_code qs g args') by (rewrite (c_rcall_builtin g args' qs _ Eb), app_nil_r; reflexivity).
+          unfold k in *. rewrite Hcode in *.
+          destruct (builtin_runs_gen f2 g args' qs Eb (args_fact0 f2 args' qs Ha) im ss s v s1 Hload Hsim Hun Hca Ev)
+            as (n & sa & e1 & E & Hsa & Huna & Hpca & Hska & Hfra & Hta & Hres).
+          exists n, sa, e1. split; [exact E|]. split; [exact Hsa|]. split; [exact Huna|]. split; [exact Hpca|]. split; [exact Hfra|]. split; [exact Hska|].
+          split; [exact Hres|exact Hta].
+        + destruct (find_rdef rt g) as [d|] eqn:Ef; [|discriminate]. apply andb_true_iff in Ha. destruct Ha as [Ha Hm].
+          assert (Hcode : c_rval rt mt (RCall g args') (DReg R_RESULT) = call_code d g args') by (rewrite (c_rcall g args' d _ Eb Ef), app_nil_r; reflexivity).
+          unfold k in *. rewrite Hcode in *.
+          destruct (call_runs_gen f2 (Hbs f2 ltac:(lia)) g args' d Eb Ef (args_fact0 f2 args' (rd_params d) Ha) im ss s v s1 Hload Hsim Hun Hca Ev)
+            as (n & sa & e1 & E & Hsa & Huna & Hpca & Hska & Hfra & Hta & Hres).
+          exists n, sa, e1. split; [exact E|]. split; [exact Hsa|]. split; [exact Huna|]. split; [exact Hpca|]. split; [exact Hfra|]. split; [exact Hska|].
+          split; [exact (Hres Hm)|exact Hta]. }
+    destruct Hval as (n1 & sa & e1 & Ea1 & Hsa & Huna & Hpca & Hfra & Hska & Hresa & Hta).
+    set (sb := advance (with_frames sa (FCall (env_set p0 p v) false None :: F))).
+    assert (Eb : esteps 1 im sa = Some (sb, [])).
+    { assert (Hfp' : fetch im (m_pc sa) = Some (I2 OC_PARAM (PStr p) (PReg R_RESULT))) by (rewrite Hpca; exact Hfp).
+      apply (estep1 im sa _ _ _ Hfp'). cbn [Machine.exec i_op i_p0 i_p1 I2].
+      assert (Hg : get_reg sa R_RESULT = Ok v) by (unfold get_reg; rewrite Hresa; reflexivity).
+      rewrite Hg. cbn [bind]. rewrite Hfra, Hfr. reflexivity. }
+    assert (Hsb : simr s1 sb).
+    { destruct Hsa as [Hr' Hf' Hg' Hv' Hw' Hdf]. constructor; cbn [sb advance with_pc with_frames with_vars m_regs m_globals m_frames m_world m_unnamed]; try assumption.
+      rewrite Hfra, Hfr in Hv'. exact Hv'. }
+    assert (Hcr' : code_at im (m_pc sb) (c_args ps r)) by (change (m_pc sb) with (m_pc sa + 1); rewrite Hpca; exact Hcr).
+    destruct (IH ps fuel (fun j Hj => Hbs j ltac:(lia)) Hr im s1 sb (env_set p0 p v) F vs' s2 Hload Hsb Huna eq_refl Hcr' Er)
+      as (n2 & s' & p1 & e2 & E2 & Hs' & Hun' & Hpc' & Hfr' & Hst' & Hb & Ht2).
+    exists (n1 + (1 + n2))%nat, s', p1, (e1 ++ ([] ++ e2)).
+    split; [eapply esteps_app; [exact Ea1|eapply esteps_app; [exact Eb|exact E2]]|].
+    split; [exact Hs'|]. split; [exact Hun'|].
+    split; [rewrite Hpc'; change (m_pc sb) with (m_pc sa + 1); rewrite Hpca; unfold zlength; rewrite !app_length, !Nat2Z.inj_add; cbn [length]; unfold k, zlength; lia|].
+    split; [exact Hfr'|]. split; [rewrite Hst'; change (m_stack sb) with (m_stack sa); exact Hska|]. split; [cbn [bind_params]; exact Hb|].
+    cbn [app]. rewrite Ht2, Hta, app_assoc. reflexivity.
+Qed.
+
+(* the two lemmas at the level of the theorem: corresponding states before and after *)
+Lemma call_runs fuel : (forall k, (k <= fuel)%nat -> body_sim k) -> forall f args d, builtin_params f builtin_table = None -> find_rdef rt f = Some d ->
+  plain_args args (rd_params d) = true ->
+  forall im ss s x ss', routines_loaded im -> sim ss s -> code_at im (m_pc s) (call_code d f args) ->
+  call rt mt (S fuel) false ss f args = ROk x ss' ->
+  exists n s' evs, esteps n im s = Some (s', evs) /\ sim ss' s' /\ m_pc s' = m_pc s + zlength (call_code d f args) /\
+                   (m_stack s', fr s') = (m_stack s, fr s) /\ rev (s_trace ss') = rev (s_trace ss) ++ evs /\
+                   (must_return (rd_body d) = true -> rf_get (m_regs s') R_RESULT = Some x).
+Proof.
+  intros Hbs f args d Hb Hf Hpl im ss s x ss' Hload Hsim Hc He.
+  destruct (call_runs_gen fuel (Hbs fuel (le_n _)) f args d Hb Hf (args_run_gen args (rd_params d) fuel (fun k Hk => Hbs k ltac:(lia)) Hpl)
+              im ss s x ss' Hload (sim_simr _ _ Hsim) (sim_unnamed _ _ Hsim) Hc He) as (n & s' & evs & E & Hs' & Hun' & Hpc & Hsk & Hfr & Ht & Hres).
+  exists n, s', evs. split; [exact E|].
+  split; [destruct Hs' as [H1 H2 H3 H4 H5 H6]; constructor; try assumption; rewrite Hfr; exact (sim_settled _ _ Hsim)|].
+  split; [exact Hpc|]. split; [unfold fr; rewrite Hsk, Hfr; reflexivity|]. split; [exact Ht|exact Hres].
+Qed.
+Lemma builtin_runs fuel : (forall k, (k <= fuel)%nat -> body_sim k) -> forall f args ps, builtin_params f builtin_table = Some ps -> plain_args args ps = true ->
+  forall im ss s x ss', routines_loaded im -> sim ss s -> code_at im (m_pc s) (bcall_code ps f args) ->
+  call rt mt (S fuel) false ss f args = ROk x ss' ->
+  exists n s' evs, esteps n im s = Some (s', evs) /\ sim ss' s' /\ m_pc s' = m_pc s + zlength (bcall_code ps f args) /\
+                   (m_stack s', fr s') = (m_stack s, fr s) /\ rev (s_trace ss') = rev (s_trace ss) ++ evs /\
+                   rf_get (m_regs s') R_RESULT = Some x.
+Proof.
+  intros Hbs f args ps Hb Hpl im ss s x ss' Hload Hsim Hc He.
+  destruct (builtin_runs_gen fuel f args ps Hb (args_run_gen args ps fuel (fun k Hk => Hbs k ltac:(lia)) Hpl)
+              im ss s x ss' Hload (sim_simr _ _ Hsim) (sim_unnamed _ _ Hsim) Hc He) as (n & s' & evs & E & Hs' & Hun' & Hpc & Hsk & Hfr & Ht & Hres).
+  exists n, s', evs. split; [exact E|].
+  split; [destruct Hs' as [H1 H2 H3 H4 H5 H6]; constructor; try assumption; rewrite Hfr; exact (sim_settled _ _ Hsim)|].
+  split; [exact Hpc|]. split; [unfold fr; rewrite Hsk, Hfr; reflexivity|]. split; [exact Ht|exact Hres].
+Qed.
+
+
 
 (* the code of the expression runs to the instruction behind it with the value on top of the stack *)
 Definition push_to (im : image) (ss : sstate) (s : mstate) (x : value) (ss1 : sstate) (k : Z) : Prop :=
@@ -832,7 +989,7 @@ Proof.
     destruct (call rt mt (S fuel) false ss f args) as [v s1|e s1|s1] eqn:Ecall; cbn [sbind] in He; try discriminate.
     destruct (operand_value_ok v s1 x ss1 He) as [-> [-> Hn]].
     rewrite (c_ecall f args d Hb Hf) in *. apply code_at_app in Hc. destruct Hc as [Hcc Hpush]. cbn [code_at] in Hpush. destruct Hpush as [Hfp _].
-    destruct (call_runs fuel (Hbs fuel ltac:(lia)) f args d Hb Hf Hp im ss s v s1 Hload Hsim Hcc Ecall) as (n & s' & evs & E & Hs' & Hpc & Hsf & Ht & Hres).
+    destruct (call_runs fuel (fun k Hk => Hbs k ltac:(lia)) f args d Hb Hf Hp im ss s v s1 Hload Hsim Hcc Ecall) as (n & s' & evs & E & Hs' & Hpc & Hsf & Ht & Hres).
     assert (Hfp' : fetch im (m_pc s') = Some (I1 OC_PUSH (PReg R_RESULT))) by (rewrite Hpc; exact Hfp).
     destruct (push_result im s1 s' v Hs' (Hres Hm) Hn Hfp') as [E2 Hs2].
     injection Hsf as Hsk Hfr.
@@ -845,13 +1002,13 @@ Proof.
     destruct (call rt mt (S fuel) false ss f args) as [v s1|e s1|s1] eqn:Ecall; cbn [sbind] in He; try discriminate.
     destruct (operand_value_ok v s1 x ss1 He) as [-> [-> Hn]].
     rewrite (c_ecall_builtin f args ps Hb) in *. apply code_at_app in Hc. destruct Hc as [Hcc Hpush]. cbn [code_at] in Hpush. destruct Hpush as [Hfp _].
-    destruct (builtin_runs f args ps Hb Hp fuel im ss s v s1 Hsim Hcc Ecall) as [Hs1 (n & s' & E & Hs' & Hpc & Hsf & Hres)]. subst s1.
+    destruct (builtin_runs fuel (fun k Hk => Hbs k ltac:(lia)) f args ps Hb Hp im ss s v s1 Hload Hsim Hcc Ecall) as (n & s' & evs & E & Hs' & Hpc & Hsf & Ht & Hres).
     assert (Hfp' : fetch im (m_pc s') = Some (I1 OC_PUSH (PReg R_RESULT))) by (rewrite Hpc; exact Hfp).
-    destruct (push_result im ss s' v Hs' Hres Hn Hfp') as [E2 Hs2].
+    destruct (push_result im s1 s' v Hs' Hres Hn Hfp') as [E2 Hs2].
     injection Hsf as Hsk Hfr.
-    exists (n + 1)%nat, (advance (with_stack s' (v :: m_stack s'))), ([] ++ []). split; [eapply esteps_app; eassumption|]. split; [exact Hs2|].
+    exists (n + 1)%nat, (advance (with_stack s' (v :: m_stack s'))), (evs ++ []). split; [eapply esteps_app; eassumption|]. split; [exact Hs2|].
     split; [cbn [advance with_pc with_stack m_pc]; rewrite Hpc; unfold zlength; rewrite app_length, Nat2Z.inj_add; cbn [length]; lia|].
-    split; [cbn [advance with_pc with_stack m_stack]; rewrite Hsk; reflexivity|]. split; [exact Hfr|]. rewrite app_nil_r. reflexivity.
+    split; [cbn [advance with_pc with_stack m_stack]; rewrite Hsk; reflexivity|]. split; [exact Hfr|]. rewrite app_nil_r. exact Ht.
   - (* a op b *)
     destruct fuel as [|fuel]; [discriminate|].
     change (eval_expr rt mt (S fuel) false ss (EBin op a b)) with
@@ -971,7 +1128,7 @@ Proof.
     intros inl inr f args b d Hb Hf Hpl after im ss s sig ss' fuel Hle Hload _ _ _ Hsim Hc He.
     destruct fuel as [|[|fuel]]; try discriminate. rewrite exec_call in He. rewrite (c_callB after f args b d Hb Hf) in *.
     destruct (call rt mt (S fuel) false ss f args) as [x s1|e s1|s1] eqn:Ecall; cbn [sbind] in He; try discriminate. injection He as Hsig Hss. subst sig ss'.
-    destruct (call_runs fuel (Hbs fuel ltac:(lia)) f args d Hb Hf Hpl im ss s x s1 Hload Hsim Hc Ecall) as (n & s' & evs & E & Hs' & Hpc & Hsf & Ht & _).
+    destruct (call_runs fuel (fun k Hk => Hbs k ltac:(lia)) f args d Hb Hf Hpl im ss s x s1 Hload Hsim Hc Ecall) as (n & s' & evs & E & Hs' & Hpc & Hsf & Ht & _).
     left. split; [reflexivity|]. exists n, s', evs. split; [exact E|]. split; [exact Hs'|]. split; [exact Hpc|]. split; [exact Hsf|exact Ht].
   - (* a call whose value is assigned, put into a register or printed: the call, then the value is taken from RESULT *)
     intros inl inr u f args d Hb Hf Hpl Hmr Hok after im ss s sig ss' fuel Hle Hload _ _ _ Hsim Hc He.
@@ -979,7 +1136,7 @@ Proof.
     destruct f2 as [|fuel]; [discriminate|]. rewrite (c_use after u f args d Hb Hf Hok) in *.
     destruct (call rt mt (S fuel) false ss f args) as [x s1|e s1|s1] eqn:Ecall; cbn [sbind] in He; try discriminate. injection He as Hsig Hss. subst sig ss'.
     apply code_at_app in Hc. destruct Hc as [Hcc Hct].
-    destruct (call_runs fuel (Hbs fuel ltac:(lia)) f args d Hb Hf Hpl im ss s x s1 Hload Hsim Hcc Ecall) as (n & s' & evs & E & Hs' & Hpc & Hsf & Ht & Hres).
+    destruct (call_runs fuel (fun k Hk => Hbs k ltac:(lia)) f args d Hb Hf Hpl im ss s x s1 Hload Hsim Hcc Ecall) as (n & s' & evs & E & Hs' & Hpc & Hsf & Ht & Hres).
     assert (Hct' : code_at im (m_pc s') (use_tail u)) by (rewrite Hpc; exact Hct).
     destruct (use_tail_runs u im s1 s' x Hok Hs' (Hres Hmr) Hct') as (n2 & s2 & e2 & E2 & Hs2 & Hpc2 & Hsf2 & Ht2).
     left. split; [reflexivity|]. exists (n + n2)%nat, s2, (evs ++ e2). split; [eapply esteps_app; eassumption|]. split; [exact Hs2|].
@@ -990,18 +1147,18 @@ Proof.
     destruct f2 as [|fuel]; [discriminate|]. rewrite (c_use_builtin after u f args ps Hb Hok) in *.
     destruct (call rt mt (S fuel) false ss f args) as [x s1|e s1|s1] eqn:Ecall; cbn [sbind] in He; try discriminate. injection He as Hsig Hss. subst sig ss'.
     apply code_at_app in Hc. destruct Hc as [Hcc Hct].
-    destruct (builtin_runs f args ps Hb Hpl fuel im ss s x s1 Hsim Hcc Ecall) as [Hs1 (n & s' & E & Hs' & Hpc & Hsf & Hres)]. subst s1.
+    destruct (builtin_runs fuel (fun k Hk => Hbs k ltac:(lia)) f args ps Hb Hpl im ss s x s1 Hload Hsim Hcc Ecall) as (n & s' & evs & E & Hs' & Hpc & Hsf & Ht & Hres).
     assert (Hct' : code_at im (m_pc s') (use_tail u)) by (rewrite Hpc; exact Hct).
-    destruct (use_tail_runs u im ss s' x Hok Hs' Hres Hct') as (n2 & s2 & e2 & E2 & Hs2 & Hpc2 & Hsf2 & Ht2).
-    left. split; [reflexivity|]. exists (n + n2)%nat, s2, ([] ++ e2). split; [eapply esteps_app; eassumption|]. split; [exact Hs2|].
-    split; [rewrite Hpc2, Hpc; unfold zlength; rewrite app_length, Nat2Z.inj_add; lia|]. split; [rewrite Hsf2; exact Hsf|]. exact Ht2.
+    destruct (use_tail_runs u im s1 s' x Hok Hs' Hres Hct') as (n2 & s2 & e2 & E2 & Hs2 & Hpc2 & Hsf2 & Ht2).
+    left. split; [reflexivity|]. exists (n + n2)%nat, s2, (evs ++ e2). split; [eapply esteps_app; eassumption|]. split; [exact Hs2|].
+    split; [rewrite Hpc2, Hpc; unfold zlength; rewrite app_length, Nat2Z.inj_add; lia|]. split; [rewrite Hsf2; exact Hsf|]. rewrite Ht2, Ht, app_assoc. reflexivity.
   - (* return [builtin ...] *)
     intros inl f args ps Hb Hpl after im ss s sig ss' fuel Hle Hload _ Hir _ Hsim Hc He.
     destruct fuel as [|f1]; [discriminate|]. rewrite exec_return in He. destruct f1 as [|f2]; [discriminate|]. rewrite eval_rval_S in He.
     destruct f2 as [|fuel]; [discriminate|]. rewrite (c_retcall_builtin after f args ps Hb) in *.
     destruct (call rt mt (S fuel) false ss f args) as [x s1|e s1|s1] eqn:Ecall; cbn [sbind] in He; try discriminate. injection He as Hsig Hss. subst sig ss'.
     apply code_at_app in Hc. destruct Hc as [Hcc Hr]. cbn [code_at] in Hr. destruct Hr as [Hfr _].
-    destruct (builtin_runs f args ps Hb Hpl fuel im ss s x s1 Hsim Hcc Ecall) as [Hs1 (n & s' & E & Hs' & Hpc & Hsf & Hres)]. subst s1.
+    destruct (builtin_runs fuel (fun k Hk => Hbs k ltac:(lia)) f args ps Hb Hpl im ss s x s1 Hload Hsim Hcc Ecall) as (n & s' & evs & E & Hs' & Hpc & Hsf & Ht & Hres).
     destruct (fr_eq_facts s' s Hsf) as [Hsk1 [Hct1 [_ Hrs1]]].
     destruct (Hir eq_refl) as (ret & F & Hct).
     assert (Hct' : call_tail (m_frames s') = Some (ret, F)) by (rewrite Hct1; exact Hct).
@@ -1010,9 +1167,9 @@ Proof.
     { assert (Hfr' : fetch im (m_pc s') = Some (I0 OC_RETURN)) by (rewrite Hpc; exact Hfr).
       apply (estep1 im s' _ _ _ Hfr'). cbn [Machine.exec i_op I0]. rewrite (do_return_steps s' ret F Hct'). reflexivity. }
     right. right. split; [reflexivity|]. exists x. split; [reflexivity|]. exists ret, F. split; [exact Hct|].
-    exists (n + 1)%nat, s2, ([] ++ []). split; [eapply esteps_app; eassumption|].
+    exists (n + 1)%nat, s2, (evs ++ []). split; [eapply esteps_app; eassumption|].
     split; [split; [destruct Hs' as [Hr1 Hf1 Hg1 Hv1 Hst1 Hw1 Hu1 Hdf1]; repeat split; assumption|exact Hres]|].
-    split; [reflexivity|]. split; [reflexivity|]. split; [exact Hrs1|]. rewrite app_nil_r. reflexivity.
+    split; [reflexivity|]. split; [reflexivity|]. split; [exact Hrs1|]. rewrite app_nil_r. exact Ht.
   - (* an expression with calls inside, assigned, put into a register or printed *)
     intros inl inr u e He0 Hok after im ss s sig ss' fuel Hle Hload _ _ _ Hsim Hc He.
     destruct fuel as [|f1]; [discriminate|]. rewrite exec_use in He. destruct f1 as [|f2]; [discriminate|]. rewrite eval_rval_S in He.
@@ -1054,7 +1211,7 @@ Proof.
     destruct f2 as [|fuel]; [discriminate|]. rewrite (c_retcall after f args d Hb Hf) in *.
     destruct (call rt mt (S fuel) false ss f args) as [x s1|e s1|s1] eqn:Ecall; cbn [sbind] in He; try discriminate. injection He as Hsig Hss. subst sig ss'.
     apply code_at_app in Hc. destruct Hc as [Hcc Hr]. cbn [code_at] in Hr. destruct Hr as [Hfr _].
-    destruct (call_runs fuel (Hbs fuel ltac:(lia)) f args d Hb Hf Hpl im ss s x s1 Hload Hsim Hcc Ecall) as (n & s' & evs & E & Hs' & Hpc & Hsf & Ht & Hres).
+    destruct (call_runs fuel (fun k Hk => Hbs k ltac:(lia)) f args d Hb Hf Hpl im ss s x s1 Hload Hsim Hcc Ecall) as (n & s' & evs & E & Hs' & Hpc & Hsf & Ht & Hres).
     destruct (fr_eq_facts s' s Hsf) as [Hsk1 [Hct1 [_ Hrs1]]].
     destruct (Hir eq_refl) as (ret & F & Hct).
     assert (Hct' : call_tail (m_frames s') = Some (ret, F)) by (rewrite Hct1; exact Hct).
@@ -1892,7 +2049,7 @@ Qed.
    run reaches *)
 Theorem call_simulation :
   forall rt mt, bodies_ok rt mt -> forall f args b d, builtin_params f builtin_table = None -> find_rdef rt f = Some d ->
-  plain_args mt args (rd_params d) = true ->
+  plain_args rt mt args (rd_params d) = true ->
   forall after im ss s sig ss' fuel, routines_loaded rt mt im -> sim ss s ->
   code_at im (m_pc s) (c_stmt rt mt false after (SCall f args b)) ->
   Sem.exec rt mt fuel false ss (SCall f args b) = ROk sig ss' ->
@@ -1916,7 +2073,7 @@ Qed.
 (* the value of a call, where a statement takes it directly: `assign y [f ...]`, `hue [f ...]`, `print [f ...]`, `println [f ...]` *)
 Theorem call_value_simulation :
   forall rt mt, bodies_ok rt mt -> forall u f args d, builtin_params f builtin_table = None -> find_rdef rt f = Some d ->
-  plain_args mt args (rd_params d) = true -> must_return (rd_body d) = true -> use_ok u = true ->
+  plain_args rt mt args (rd_params d) = true -> must_return (rd_body d) = true -> use_ok u = true ->
   forall after im ss s sig ss' fuel, routines_loaded rt mt im -> sim ss s ->
   code_at im (m_pc s) (c_stmt rt mt false after (use_stmt u (RCall f args))) ->
   Sem.exec rt mt fuel false ss (use_stmt u (RCall f args)) = ROk sig ss' ->
@@ -1940,7 +2097,7 @@ Qed.
 (* the value of a built-in function (round, floor, sqrt, ...) taken directly by a statement *)
 Theorem builtin_value_simulation :
   forall rt mt, bodies_ok rt mt -> forall u f args ps, builtin_params f builtin_table = Some ps ->
-  plain_args mt args ps = true -> use_ok u = true ->
+  plain_args rt mt args ps = true -> use_ok u = true ->
   forall after im ss s sig ss' fuel, routines_loaded rt mt im -> sim ss s ->
   code_at im (m_pc s) (c_stmt rt mt false after (use_stmt u (RCall f args))) ->
   Sem.exec rt mt fuel false ss (use_stmt u (RCall f args)) = ROk sig ss' ->
@@ -1993,8 +2150,8 @@ Definition callval_b (v : rval) : bool :=
   match v with
   | RCall g args =>
       match builtin_params g builtin_table, find_rdef rt g with
-      | Some ps, _ => plain_args mt args ps
-      | None, Some d => plain_args mt args (rd_params d) && must_return (rd_body d)
+      | Some ps, _ => plain_args rt mt args ps
+      | None, Some d => plain_args rt mt args (rd_params d) && must_return (rd_body d)
       | _, _ => false
       end
   | _ => false
@@ -2022,7 +2179,7 @@ Fixpoint simpleB_b (fuel : nat) (inl inr : bool) (st : stmt) : bool :=
       | SReturn None => inr
       | SCall g args _ =>
           match builtin_params g builtin_table, find_rdef rt g with
-          | None, Some d => plain_args mt args (rd_params d)
+          | None, Some d => plain_args rt mt args (rd_params d)
           | _, _ => false
           end
       | SPrintf fmt args =>
@@ -2052,8 +2209,8 @@ Proof.
   induction fuel as [|f IH]; intros inl inr st H; [discriminate|]. cbn [simpleB_b] in H.
   destruct (simple_atom mt st) eqn:Ea; [apply B_simple; apply S_atom; exact Ea|]. cbn [orb] in H.
   assert (Hcv : forall v, callval_b v = true -> exists g args, v = RCall g args /\
-             ((exists ps, builtin_params g builtin_table = Some ps /\ plain_args mt args ps = true) \/
-              (exists d, builtin_params g builtin_table = None /\ find_rdef rt g = Some d /\ plain_args mt args (rd_params d) = true /\ must_return (rd_body d) = true))).
+             ((exists ps, builtin_params g builtin_table = Some ps /\ plain_args rt mt args ps = true) \/
+              (exists d, builtin_params g builtin_table = None /\ find_rdef rt g = Some d /\ plain_args rt mt args (rd_params d) = true /\ must_return (rd_body d) = true))).
   { intros v Hv. destruct v as [l|l|m|m|y|r|e|g args]; try discriminate. cbn [callval_b] in Hv. exists g, args. split; [reflexivity|].
     destruct (builtin_params g builtin_table) as [ps|] eqn:Eb; [left; exists ps; split; [reflexivity|exact Hv]|]. destruct (find_rdef rt g) as [d|] eqn:Ef; [|discriminate].
     apply andb_true_iff in Hv. destruct Hv as [Hp Hm]. right. exists d. repeat split; assumption. }
